@@ -27,7 +27,7 @@ if [ "$APPLY" != "no" ]; then
   git apply $SRC/patch.diff
   cd $VF && VERIF_REPO=$RP ./check $P "$@" > /tmp/mut/$P.$V.check.log 2>&1; RC=$?
   git -C $RP checkout -q -- .
-  RES=$(grep -c "^VIOLATION" /tmp/mut/$P.$V.check.log)
+  RES=$(grep -c "^VIOLATION" /tmp/mut/$P.$V.check.log); cp /tmp/mut/$P.$V.check.log $OUT/check.log
   echo "check exit $RC, VIOLATION lines: $RES"; grep "^VIOLATION\|^UNDECIDED\|^property" /tmp/mut/$P.$V.check.log | cut -c1-260 | head -8
 fi
 python3 - <<PY
